@@ -1,0 +1,22 @@
+//go:build verif
+
+package compiler
+
+// Contracts for the deductive verifier under /verif (comment-only; build tag verif).
+
+// ---- regex error position mapping (C22) ----
+
+//@ pred lineTable(lines []int) = len(lines) > 0 && lines[0] == 0 && forall p in 0..len(lines) :: forall q in p+1..len(lines) :: lines[p] < lines[q]
+
+// parsePattern: the pattern node covers "/" text "/". A regular expression that does not parse is
+// reported as a *status.Error whose range lies inside the pattern node, is not inverted, stays on
+// the node's line, and whose column moves with its offset (column - 1 is the distance from the start
+// of that line). Nothing panics: the text between the slashes exists and the parse error has the
+// type that is asserted.
+//@ func parsePattern
+//@   requires p.Node != nil && p.Node.tree != nil && lineTable(p.Node.tree.lines)
+//@   requires 0 <= p.Node.offset && p.Node.offset + 2 <= p.Node.endoffset && p.Node.endoffset <= len(p.Node.tree.content)
+//@   ensures result0 != nil
+//@   ensures result1 != nil ==> istype(result1, "*status.Error")
+//@   ensures result1 != nil ==> (let e = dyn(result1, "*status.Error") in p.Node.offset <= e.Origin.Offset && e.Origin.Offset <= e.Origin.EndOffset && e.Origin.EndOffset <= p.Node.endoffset)
+//@   ensures result1 != nil ==> (let e = dyn(result1, "*status.Error") in 1 <= e.Origin.Line && e.Origin.Line <= len(p.Node.tree.lines) && p.Node.tree.lines[e.Origin.Line-1] <= p.Node.offset && e.Origin.Column == e.Origin.Offset - p.Node.tree.lines[e.Origin.Line-1] + 1)
